@@ -23,9 +23,9 @@
      fits, which it does here - trusted, re-checked by the byte comparison).
      The sorted window is written back (pwrite + the private mapping showing it)
      and ring_check dies when the window is not sorted by UNSIGNED clock.
-   * a stream with zero events is "inactive": stream_step fails at once, so
-     both modes FAIL on it ([winsort n [] = None], [check_mode [] = false]);
-     encoded only in [empty_stream_result] / [empty_stream_check].
+   * a stream with zero events is "inactive": process_trace skips it in both
+     modes ([winsort n [] = Some []], [check_mode [] = true]); encoded only in
+     [empty_stream_result] / [empty_stream_check].
    * stream_check (-c): first clock, then no backwards jump (unsigned).
    * the emulator's loader (stream_step without allow_unsorted): signed clock
      never below the previous one, starting from 0.
@@ -153,14 +153,13 @@ Fixpoint wrun (n : nat) (w : wstate) (l : list ev) : option wstate :=
 
 Definition winit : wstate := mkw WS [].
 
-(* A stream with zero events: load_obs marks it inactive and the first
-   stream_step fails, so ovnisort fails (both modes).  THE ONLY PLACE where
-   the model encodes this; if /repo starts skipping such streams set
-   [empty_stream_result := Some []] and [empty_stream_check := true]
-   (theorem C16_succeeds_refuted_empty then no longer holds and must go, and the
-   hypotheses [evs <> []] of the _partial theorems can be dropped). *)
-Definition empty_stream_result : option (list ev) := None.
-Definition empty_stream_check : bool := false.
+(* A stream with zero events: load_obs marks it inactive; since /repo commit
+   4875105 process_trace skips inactive streams in both modes, so the tool
+   succeeds and leaves the (empty) stream as it is.  THE ONLY PLACE where the
+   model encodes this (before that commit: None / false, the first stream_step
+   failed). *)
+Definition empty_stream_result : option (list ev) := Some [].
+Definition empty_stream_check : bool := true.
 
 (* ovnisort -n N on one stream: None = the tool fails (exit status != 0). *)
 Definition winsort (n : nat) (evs : list ev) : option (list ev) :=
